@@ -98,7 +98,8 @@ class C13(Property):
                 r = rnd.randint(last, max(last, hi))
                 last = r
                 events.append(["pull", r])
-        return dict(chain=chain, start=start, events=events)
+        # the consumer may declare a later start time than the source: the link's start time is the source's
+        return dict(chain=chain, start=start, events=events, cons_offset=rnd.choice([0, 0, 0, 3, 8]))
 
     def _composition(self, spec):
         from .. import sched_run
@@ -142,7 +143,9 @@ class C13(Property):
 
         o.get_data = spy  # public entry point of the source, wrapped on this instance
         ads, models = build(spec["chain"], start)
-        inp = fm.Input(name="in", info=info.copy_with())
+        inp = fm.Input(name="in", info=info.copy_with(time=slots.t(start + spec.get("cons_offset", 0))))
+        if spec.get("cons_offset"):
+            out.count("consumer_declares_later_start")
         slots.wire(o, ads, [inp])
         inp.exchange_info()
         hist = History()
@@ -222,7 +225,7 @@ class C13(Property):
     def coverage_gaps(self, counters, tier):
         need = ["pulls", "time_at_source_compared", "pulls_before_start_data_compared", "served_shifted", "refused_out_of_range",
                 "chains_with_1_delays", "chains_with_2_delays", "chains_with_3_delays",
-                "driver_requests_compared", "compositions_with_multi_delay_links"]
+                "driver_requests_compared", "compositions_with_multi_delay_links", "consumer_declares_later_start"]
         return [f"{k} never observed" for k in need if not counters.get(k)]
 
 
